@@ -559,16 +559,46 @@ def rule_lengths(ctx):
         dict(what="AEAD: record long enough for the tag", text="self._readState.encContext.tagLength > len(buf)",
              fail="T", protects=_stmt(".open(nonce, buf, authData)")),
     ])
-    gate_table(ctx, R, RECLAYER + "_decryptSSL2", [
-        dict(what="SSLv2: MAC compared, mismatch raises", text="macBytes != calcMac", fail="T",
-             cut_tests=etm, msg="an SSLv2 record can be accepted without a verified MAC"),
-    ], sinks="return")
+    # SSLv2 receive path: decided over sample records (c01shared.run_method; nothing of the library runs):
+    # a record whose 16-byte MAC covers the payload and the low 32 bits of the receiver's sequence number
+    # is returned without MAC and padding; one altered byte, or a MAC made for another sequence number,
+    # is refused with TLSBadRecordMAC
+    import hashlib
+    from ..condeval import Rec, Unknown
+    from .c01shared import run_method, _SampleMac
+
+    class _Mac16(_SampleMac):
+        def copy(self):
+            return _Mac16(self.fed)
+
+        def digest(self):
+            return hashlib.md5(b"sample-key" + self.fed).digest()
     f2 = ctx.index.func(RECLAYER + "_decryptSSL2")
-    src = [norm(x) for x in own_nodes(f2.node) if isinstance(x, (ast.Assign, ast.Expr))]
-    ok = "mac.update(compatHMAC(data))" in src and "mac.update(compatHMAC(seqnumBytes[-4:]))" in src and \
-        "macBytes = data[:16]" in src and "calcMac = bytearray(mac.digest())" in src
-    ctx.check(R, ok, f2.qname, "SSLv2 MAC over data and the low 32 bits of the sequence number",
-              "the SSLv2 receive MAC must cover the data and the sequence number", f2.loc())
+    SEQ = bytes([0, 0, 0, 0, 0, 0, 1, 7])
+    payload, pad = bytes(range(30, 60)), 3
+
+    def rec(seq):
+        body = payload + bytes(pad)
+        return _Mac16(body + seq[-4:]).digest() + body
+    cases = [("well-formed", rec(SEQ), True), ("payload byte altered", None, False), ("MAC byte altered", None, False),
+             ("MAC made for another sequence number", rec(bytes([0, 0, 0, 0, 0, 0, 1, 8])), False)]
+    good = rec(SEQ)
+    b1 = bytearray(good); b1[20] ^= 1
+    b2 = bytearray(good); b2[3] ^= 1
+    cases[1] = (cases[1][0], bytes(b1), False)
+    cases[2] = (cases[2][0], bytes(b2), False)
+    for label, data, accept in cases:
+        state = Rec(macContext=_Mac16(), encContext=None, **{"getSeqNumBytes()": SEQ})
+        try:
+            kind, val = run_method(ctx, f2, [data, pad], {"self._readState": state}, {})
+        except (Unknown, TypeError, AttributeError, KeyError, IndexError, ValueError) as e:
+            raise AnalysisError("%s: cannot interpret %s: %s" % (R, f2.qname, e))
+        ok = (kind == "return" and bytes(val) == payload) if accept else (kind == "raise" and "TLSBadRecordMAC" in str(val))
+        ctx.check(R, ok, f2.qname, "SSLv2 record: " + label,
+                  "an SSLv2 record (%s) must be %s; the receive path %s" % (
+                      label, "returned without MAC and padding" if accept else "refused with TLSBadRecordMAC",
+                      "returns %r" % (bytes(val)[:8] if kind == "return" and val is not None else val) if kind == "return" else "ends with %s %s" % (kind, val)),
+                  f2.loc(), what="SSLv2 receive MAC covers payload and sequence number: " + label)
     gate_table(ctx, R, RECLAYER + "recvRecord", [
         dict(what="TLS 1.3: inner plaintext (with content type) capped at limit + 1",
              text="len(data) > self.recv_record_limit + 1", fail="T", protects=_stmt("self._tls13_de_pad(data)"),
